@@ -574,6 +574,36 @@ func c14KeyPairs() fw.Result {
 			}
 		}
 	}
+	// a dotted PARTITION BY key (nested field) while the row also carries a top-level column named like the
+	// key's last segment with other values (a flat column named like the whole dotted text would legitimately win): the nested field decides
+	for _, sql := range []string{"SELECT acc_count(v) OVER (PARTITION BY d.id) AS c FROM stream", "SELECT acc_count(v) OVER (PARTITION BY d.id, k) AS c FROM stream"} {
+		for _, shadow := range [][]any{{7, 7, 8, 8}, {1, 1, 1, 1}, {2, 1, 2, 1}} {
+			var rows []Row
+			for n := 0; n < 4; n++ {
+				rows = append(rows, Row{"v": 1, "k": "x", "d": map[string]any{"id": 1 + n%2}, "id": shadow[n]})
+			}
+			res, execErr, st, _ := syncEval(sql, rows)
+			a.r.Evaluations++
+			a.r.States++
+			a.r.Nontrivial++
+			cs := map[string]any{"sql": sql, "rows": rows}
+			if execErr != "" || st != sched.StatusOK {
+				a.fail("C14|key-pairs|exec", execErr+" "+st.String(), cs, nil, nil)
+				continue
+			}
+			var got []string
+			for _, r := range res {
+				if r.Row == nil {
+					got = append(got, "-")
+				} else {
+					got = append(got, js(r.Row["c"]))
+				}
+			}
+			if strings.Join(got, ",") != "1,1,2,2" {
+				a.fail("C14|key-pairs|nested-key-shadowed", fmt.Sprintf("%s: rows with d.id = 1,2,1,2 give acc_count %v, reference [1 1 2 2]; rows %s", sql, got, js(rows)), cs, "1,1,2,2", got)
+			}
+		}
+	}
 	a.sample(map[string]any{"one_column_values": fmt.Sprint(one), "two_column_values": fmt.Sprint(two)})
 	return a.result()
 }
